@@ -405,7 +405,7 @@ def _contains_sink_call(prog, stmt, rs, header_only=True):
 
 def rule_file2(prog, rep, tier, anchor="conformance._conform_filename"):
     """FILE-2: on every path of _conform_filename the returned changed-flag is true iff a write lies on the path."""
-    fi = prog.fn(anchor)
+    fi = prog.fn_role(anchor, "conform_file") if anchor == "conformance._conform_filename" else prog.fn(anchor)
     rs = reaches_sink(prog)
     cfg = CFG(fi.node)
     paths = [p for p in cfg.paths() if p[-1][0].kind == "RETURN"]
@@ -493,7 +493,7 @@ def rule_file2(prog, rep, tier, anchor="conformance._conform_filename"):
 
 def rule_file2b(prog, rep, tier, anchor="conformance._conform_filename"):
     """FILE-2b: rewriting an existing file is control-dependent on an AST inequality test."""
-    fi = prog.fn(anchor)
+    fi = prog.fn_role(anchor, "conform_file")
     rs = reaches_sink(prog)
     n = 0
     for node in ast.walk(fi.node):
@@ -866,7 +866,7 @@ def rule_file7(prog, rep, tier, worker="sync_properties.sync_properties", per_pa
 def rule_file2c(prog, rep, tier, anchor="conformance._conform_filename"):
     """FILE-2c (C09): a target that exists and whose definition was found is left unwritten only because its syntax tree
     equals the replacement (or the transformer reported no replacement); any other reason to skip leaves a stale target."""
-    fi = prog.fn(anchor)
+    fi = prog.fn_role(anchor, "conform_file") if anchor == "conformance._conform_filename" else prog.fn(anchor)
     rs = reaches_sink(prog)
     cfg = CFG(fi.node)
     n = 0
